@@ -340,6 +340,7 @@ class Config:
         self.timed = False
         self.overrun = 1.0  # timed mode: executions last up to overrun x test_timeout (> 1: tests may hang past their timeout)
         self.elapsed_options: list[str] = []
+        self.atomic_status_wait = True  # False: the runner's polling for a late result is a scheduling point
         self.tool_crash = False  # tools: the environment fails to start (RuntimeError inside the tool instead of a traversal)
         self.real_layer = False  # also ask the real states.setup/pool layer whether a test can fetch its states
         self.__dict__.update(kw)
@@ -385,6 +386,10 @@ class Run:
 
     def _fixed(self, where: str, key: tuple[str, str]) -> bool | None:
         pools = self.config.pool_fixed.get(key[1])
+        specific = [k for k in self.config.pool_fixed if k.endswith(":" + key[1])]
+        if specific:
+            # "object:state" entries: the state is there for the named objects only
+            pools = self.config.pool_fixed.get(key[0].split("|")[0] + ":" + key[1], [])
         if pools is None:
             return None
         return ("shared" if where == "shared" else "own") in pools or where in pools
@@ -552,6 +557,13 @@ class Run:
                 answers.append(here)
                 ok = ok and here
             ev["answers"] = answers
+            # independent of how the request was phrased: are all states this test produces there for this worker?
+            if node is not None:
+                produced = [k for k in produced_states(node) if k[1] not in ROOT_STATES]
+                scopes = params.get("pool_scope", "own swarm cluster shared").split()
+                shared = ["shared"] if "shared" in scopes else []
+                if produced:
+                    ev["produced_available"] = all((self.present_for(wid, k, shared) if "own" in scopes else any(self.bit(s, k) for s in shared)) for k in produced)
             return ok
         if action == "unset":
             for obj, state, sources in reqs:
@@ -699,6 +711,7 @@ def _deliver_late(wid: str) -> None:
 def traverse(run: Run, params: dict[str, Any] | None = None) -> None:
     """Run all workers to completion under the scheduler; exceptions are recorded in run.crash."""
     vsched.STATUS_WAIT_HOOK = _deliver_late
+    vsched.SHIM.atomic_status_wait = run.config.atomic_status_wait
     graph = run.graph
     params = params if params is not None else run.scenario.param_dict()
     workers = sorted(graph.workers.values(), key=lambda w: w.params["name"])
